@@ -323,8 +323,9 @@ class StdioClient:
 
                 except Exception as exc:
                     logger.error("Error serializing message in stdin_writer: %s", exc)
+                    # (no repr() of the message here: it can raise again, e.g. for an
+                    # object nested beyond the recursion limit, and end the writer)
                     logger.debug("Failed message type: %s", type(message))
-                    logger.debug("Failed message: %s", repr(message)[:200])
                     logger.debug("Traceback:\n%s", traceback.format_exc())
                     continue
 
